@@ -153,14 +153,114 @@ def loopback_bruteforce(ctx, n):
             ts.close()
 
 
+def loopback_rekey(ctx, n):
+    """Real server + real client with client-initiated re-keys (KEXINIT .. NEWKEYS) in the middle of
+    authentication: the pinned username and the failure counter must survive every re-key."""
+    import paramiko
+    from _loop import LoopSocket
+    import os
+    key = paramiko.RSAKey.from_private_key_file(os.path.join(ctx.repo, "tests", "_support", "rsa.key"))
+    rng = ctx.rng
+
+    class Srv(paramiko.ServerInterface):
+        def __init__(self):
+            self.calls = []
+
+        def check_auth_password(self, username, password):
+            self.calls.append(username)
+            return paramiko.AUTH_FAILED
+
+        def get_allowed_auths(self, username):
+            return "password"
+
+    def attempt(tc, user, pw):
+        try:
+            tc.auth_password(user, pw)
+            return "ok"
+        except paramiko.AuthenticationException:
+            return "failed"
+        except (paramiko.SSHException, EOFError):
+            return "closed"
+
+    def rekey(tc, ts):
+        try:
+            tc.renegotiate_keys()
+        except Exception:
+            return False
+        deadline = time.time() + 5
+        while ts.in_kex and ts.is_active() and time.time() < deadline:
+            time.sleep(0.005)
+        return True
+
+    for rep in range(n):
+        scenario = ["cap", "pin"][rep % 2]
+        sa, sb = LoopSocket(), LoopSocket()
+        sa.link(sb)
+        tc, ts = paramiko.Transport(sa), paramiko.Transport(sb)
+        srv = Srv()
+        try:
+            ts.add_server_key(key)
+            ts.start_server(threading.Event(), srv)
+            tc.start_client(timeout=10)
+            hist = []
+            if scenario == "cap":
+                cuts = sorted(rng.sample(range(1, 10), rng.choice([1, 2])))
+                for i in range(13):
+                    if i in cuts:
+                        before = (ts.auth_handler.auth_username, ts.auth_handler.auth_fail_count)
+                        hist.append("rekey")
+                        if rekey(tc, ts):
+                            after = (getattr(ts.auth_handler, "auth_username", None),
+                                     getattr(ts.auth_handler, "auth_fail_count", None))
+                            if after != before:
+                                ctx.fail("rekey-resets-auth-state", "a re-key during authentication changed the server's "
+                                         "pinned username / failure count from %r to %r" % (before, after),
+                                         case={"loopback": hist}, expected=before, observed=after)
+                    r = attempt(tc, "alice", "pw%d" % i)
+                    hist.append("password alice -> " + r)
+                    if r == "closed":
+                        break
+                deadline = time.time() + 3
+                while ts.is_active() and time.time() < deadline:
+                    time.sleep(0.01)
+                if len(srv.calls) != 10 or ts.is_active():
+                    ctx.fail("ten-failures-no-disconnect" if len(srv.calls) > 10 or ts.is_active()
+                             else "disconnect-before-ten-failures",
+                             "with re-keys between the attempts a real server must still evaluate exactly ten failed "
+                             "passwords and then be closed", case={"loopback": hist},
+                             expected="10 callbacks, transport closed",
+                             observed={"callbacks": len(srv.calls), "active": ts.is_active()})
+            else:
+                k = rng.randrange(1, 4)
+                for i in range(k):
+                    hist.append("password alice -> " + attempt(tc, "alice", "pw%d" % i))
+                hist.append("rekey")
+                rekey(tc, ts)
+                hist.append("password bob -> " + attempt(tc, "bob", "pw"))
+                deadline = time.time() + 3
+                while ts.is_active() and time.time() < deadline:
+                    time.sleep(0.01)
+                if "bob" in srv.calls or ts.is_active() or ts.is_authenticated():
+                    ctx.fail("username-change-not-rejected", "after a re-key a request for a different username than "
+                             "the pinned one was evaluated / did not end the connection",
+                             case={"loopback": hist}, expected="no callback for bob, transport closed",
+                             observed={"callbacks": srv.calls, "active": ts.is_active()})
+            ctx.count(("loopback-rekey", scenario, tuple(hist)), kind="loopback-rekey-" + scenario)
+        finally:
+            tc.close()
+            ts.close()
+
+
 def run(ctx):
     ctx.rule = ("seeded generator (random.Random('C16-<seed>')): request sequences of harness/c14.py in the "
                 "profiles brute (10-18 mostly failing requests for one user), mixed and lenient, with username / "
                 "service switches at random points; plus 10-13 failed passwords delivered without the run-loop "
-                "gate, and real loopback transports attempting 13 failed passwords; a step counts when the "
+                "gate, and real loopback transports attempting 13 failed passwords, with and without client-initiated re-keys between the attempts (cap) and before a username switch (pin); a step counts when the "
                 "handler was reached and is distinct by (message, oracle, state)")
     ctx.trusted += ["shared model coq/Model/C14.v is hand-written; tied to auth_handler.py by this differential run",
-                    "Transport.run stops dispatching once active is False (observed on real transports, not proved)"]
+                    "Transport.run stops dispatching once active is False (observed on real transports, not proved)",
+                    "the server AuthHandler is created once (Transport._parse_newkeys: only when auth_handler is None); "
+                    "the model has one handler per connection -- checked by re-key histories on real transports"]
     ctx.assumptions += ["usernames / services are valid UTF-8 (byte equality = str equality)"]
     ctx.prove()
     scale = 6 if ctx.thorough else 1
@@ -168,10 +268,15 @@ def run(ctx):
     c14.run_sequences(ctx, 140 * scale, c16_oracle, "seq", profiles=["brute", "brute", "mixed", "lenient"])
     ungated_sequences(ctx, 6 * scale)
     loopback_bruteforce(ctx, 2 if not ctx.thorough else 5)
+    loopback_rekey(ctx, 4 if not ctx.thorough else 12)
 
 
 def replay(ctx, rep):
     case = rep.get("case") or {}
+    if "loopback" in case:
+        ctx.prove()
+        loopback_bruteforce(ctx, 1)
+        return loopback_rekey(ctx, 4)
     if str(rep.get("key", "")).startswith("gssapi-"):
         return c14.replay(ctx, rep)
     if "steps" not in case:
